@@ -99,6 +99,16 @@ fn with_authority_mut<R>(text: &[u8], use_ri: bool, f: impl FnOnce(&mut Authorit
 	}
 }
 
+/// A handle built by the public unsafe constructor over the authority range of a raw buffer.
+fn with_raw_authority_mut<R>(text: &[u8], start: usize, end: usize, f: impl FnOnce(&mut AuthorityMut) -> R) -> (R, Vec<u8>) {
+	let mut buf = text.to_vec();
+	let r = {
+		let mut h = unsafe { AuthorityMut::new(&mut buf, start, end) };
+		f(&mut h)
+	};
+	(r, buf)
+}
+
 /// One transition. Buffer = prefix + authority + rest (prefix ends with "//").
 /// Returns the new authority text when every check passed.
 pub fn c11_step(prefix: &[u8], rest: &[u8], init: &[u8], history: &[AOp], before: &[u8], op: &AOp, out: &mut Vec<Violation>) -> Option<Vec<u8>> {
@@ -144,6 +154,32 @@ pub fn c11_step(prefix: &[u8], rest: &[u8], init: &[u8], history: &[AOp], before
 			Guard::Panic(pm) => {
 				out.push(mk("fresh-handle", "panic").feat("panic_at", panic_site(&pm)).obs(format!("panic: {pm}")).exp("no panic"));
 				ok = false;
+			}
+		}
+		// (1b) a handle built over the raw buffer (AuthorityMut::new), fresh and - below - re-used
+		if !*use_ri {
+			let (st, en) = (prefix.len(), prefix.len() + before.len());
+			let raw = guard(|| {
+				with_raw_authority_mut(&cur_text, st, en, |h| {
+					apply_authmut(h, op);
+					observe_authmut(h)
+				})
+			});
+			match raw {
+				Guard::Ok(((a1, d1), text)) => {
+					if text != want_text || a1 != want_auth || d1 != want_auth {
+						out.push(
+							mk("raw-handle", "buffer-or-view")
+								.obs(format!("buffer {:?}, as_authority {:?}, deref {:?}", lossy(&text), lossy(&a1), lossy(&d1)))
+								.exp(format!("buffer {:?}, authority {:?}", lossy(&want_text), lossy(&want_auth))),
+						);
+						ok = false;
+					}
+				}
+				Guard::Panic(pm) => {
+					out.push(mk("raw-handle", "panic").feat("panic_at", panic_site(&pm)).obs(format!("panic: {pm}")).exp("no panic"));
+					ok = false;
+				}
 			}
 		}
 		// (2) one handle through the whole history
